@@ -167,8 +167,12 @@ class Passive(Compiler):
             name = operations.op.__class__.__name__
             params = par_evaluate(operations.op.p)
             modes = [modes_label.ind for modes_label in operations.reg]
+            # gates carrying the inverse (dagger) flag contribute the inverse of their unitary
+            dagger = getattr(operations.op, "dagger", False)
             if name == "Rgate":
                 G = np.exp(1j * params[0])
+                if dagger:
+                    G = np.conj(G)
                 T = _apply_one_mode_gate(G, T, dict_indices[modes[0]])
             elif name == "LossChannel":
                 G = np.sqrt(params[0])
@@ -197,11 +201,15 @@ class Passive(Compiler):
                     T = T0_expand @ T
             elif name == "BSgate":
                 G = _beam_splitter_passive(params[0], params[1])
+                if dagger:
+                    G = G.conj().T
                 T = _apply_two_mode_gate(G, T, dict_indices[modes[0]], dict_indices[modes[1]])
             elif name == "MZgate":
                 v = np.exp(1j * params[0])
                 u = np.exp(1j * params[1])
                 U = 0.5 * np.array([[u * (v - 1), 1j * (1 + v)], [1j * u * (1 + v), 1 - v]])
+                if dagger:
+                    U = U.conj().T
                 T = _apply_two_mode_gate(U, T, dict_indices[modes[0]], dict_indices[modes[1]])
             elif name == "sMZgate":
                 exp_sigma = np.exp(1j * (params[0] + params[1]) / 2)
@@ -209,6 +217,8 @@ class Passive(Compiler):
                 U = exp_sigma * np.array(
                     [[np.sin(delta), np.cos(delta)], [np.cos(delta), -np.sin(delta)]]
                 )
+                if dagger:
+                    U = U.conj().T
                 T = _apply_two_mode_gate(U, T, dict_indices[modes[0]], dict_indices[modes[1]])
 
         ord_reg = [r for r in list(registers) if r.ind in used_modes]
